@@ -346,10 +346,15 @@ def run_c01(ctx):
 
 def run_c03(ctx):
     quick = ctx.tier == "quick"
-    pool = [1, 2, 4, 6, 11] if quick else [1, 2, 3, 4, 6, 7, 9, 10, 11]
-    for nref, cnts, sizes in (((1, "{<<1, 1>>, <<2, 1>>}", (1, 2)), (2, "{<<1, 1>>}", (2, 3))) if quick else
-                              ((1, "{<<1, 1>>, <<2, 1>>, <<1, 2, 1>>}", (1, 2, 3)), (2, "{<<1, 1>>, <<2, 1>>, <<1, 1, 1>>}", (2, 3, 4)),
-                               (3, "{<<1, 1>>, <<2, 2>>}", (3, 5)))):
+    # (sizes are chosen so that TLC enumerates at most a few 10^5 initial states per instance: the number of layouts grows
+    # with the factorial of the channels per setup)
+    if quick:
+        plans = [(1, "{<<1, 1>>, <<2, 1>>}", (1, 2), [1, 2, 4, 6, 11]), (2, "{<<1, 1>>}", (2, 3), [1, 2, 4, 6, 11])]
+    else:
+        plans = [(1, "{<<1, 1>>, <<2, 1>>, <<1, 2, 1>>}", (1, 2, 3), [1, 2, 3, 4, 6, 7, 9, 10, 11]),
+                 (2, "{<<1, 1>>, <<2, 1>>, <<1, 1, 1>>}", (2, 3, 4), [1, 3, 4, 6, 9, 11]),
+                 (3, "{<<1, 1>>}", (3, 5), [1, 3, 4, 6, 9, 11])]
+    for nref, cnts, sizes, pool in plans:
         systems, _ = systems_tla(sizes, pool)
         run_pipeline(ctx, f"multi{nref}", "multi", cap=(1200 if quick else 10000), Systems=systems, MultiNRef=nref, MultiCounts=Raw(cnts),
                      Methods={"cov_mm", "dat"}, BrExtra=({0, 2} if quick else {0, 1, 3}), GainPats={0, 1, 2})
